@@ -71,3 +71,11 @@ ENTRIES += [
     B('probe-without-tilde', "PRINTABLE_ASCII = ''.join(chr(i) for i in range(0x20, 0x7f))", "PRINTABLE_ASCII = ''.join(chr(i) for i in range(0x20, 0x7e))", 'C10-D1'),
     N('probe-literal', "PRINTABLE_ASCII = ''.join(chr(i) for i in range(0x20, 0x7f))", "PRINTABLE_ASCII = ' !\"#$%&\\'()*+,-./0123456789:;<=>?@ABCDEFGHIJKLMNOPQRSTUVWXYZ[\\\\]^_`abcdefghijklmnopqrstuvwxyz{|}~'"),
 ]
+
+_PE_NEW_HEAD = "    if NON_ASCII_PATTERN.search(text) is None:\n        return ''.join([mapping(char) for char in text.encode(encoding)])\n"
+ENTRIES += [
+    {'id': 'C10/regress-map-over-all-bytes', 'prop': 'C10', 'kind': 'break', 'expect': 'C10-D3', 'edits': [('wpull/url.py', _PE_NEW_HEAD,
+      "    if True:\n        return ''.join([mapping(char) for char in text.encode(encoding)])\n")]},
+    {'id': 'C10/benign-ascii-test-by-encode', 'prop': 'C10', 'kind': 'benign', 'edits': [('wpull/url.py', _PE_NEW_HEAD,
+      "    if all(ord(char) < 128 for char in text):\n        return ''.join([mapping(char) for char in text.encode(encoding)])\n")]},
+]
